@@ -2,6 +2,7 @@ package props
 
 import (
 	"fmt"
+	"math"
 	"sort"
 	"strings"
 
@@ -174,7 +175,50 @@ func c01sweep(c *core.Ctx, first int) {
 	}
 }
 
+// c01floats: float values with both zeros: -0.0 == +0.0 is one value for Contains and
+// Remove (the comparator, built from < and >, is a total order consistent with ==).
+func c01floats(c *core.Ctx) {
+	nz := math.Copysign(0, -1)
+	cmp := func(a, b float64) int {
+		switch {
+		case a < b:
+			return -1
+		case a > b:
+			return 1
+		}
+		return 0
+	}
+	for _, ordered := range []bool{false, true} {
+		tr := avl.New(cmp)
+		if ordered {
+			tr = avl.NewOrdered[float64]()
+		}
+		for _, v := range []float64{3, nz, -2, 7, math.Inf(-1)} {
+			tr.Add(v)
+		}
+		if !tr.Contains(0.0) || !tr.Contains(nz) || tr.Len() != 5 {
+			c.Violate("floats:Contains-signed-zero", fmt.Sprintf("a tree holding -0.0: Contains(+0.0)=%v Contains(-0.0)=%v Len=%d (ordered=%v)", tr.Contains(0.0), tr.Contains(nz), tr.Len(), ordered), nil)
+			return
+		}
+		tr.Add(0.0)
+		if in := tr.SliceInOrder(); len(in) != 6 || in[2] != 0 || in[3] != 0 {
+			c.Violate("floats:in-order", fmt.Sprintf("in-order of {-Inf,-2,-0,+0,3,7} is %v", in), nil)
+			return
+		}
+		if !tr.Remove(0.0) || !tr.Remove(nz) || tr.Remove(0.0) || tr.Contains(nz) || tr.Len() != 4 {
+			c.Violate("floats:Remove-signed-zero", fmt.Sprintf("with -0.0 and +0.0 stored, two Removes of a zero must succeed and the third fail; Len is now %d (ordered=%v)", tr.Len(), ordered), nil)
+			return
+		}
+	}
+	c.Count("float_value_cases", 1)
+	c.NonTrivial(core.Mix(c.Seed, 101))
+}
+
 func runC01(c *core.Ctx) {
+	if c.Index == 9 {
+		c01floats(c)
+		return
+	}
 	if c.Index < 9 {
 		c01sweep(c, int(c.Index))
 		return
